@@ -66,6 +66,8 @@ void LogContainer::uncompress() {
     switch (compressionMethod) {
     case 0: /* no compression */
         uncompressedFile = compressedFile;
+        /* the stored payload is the data: do not trust the declared size */
+        uncompressedFileSize = static_cast<uint32_t>(uncompressedFile.size());
         break;
 
     case 2: { /* zlib compress */
